@@ -84,6 +84,8 @@ class _mpf(mpnumeric):
         if isinstance(x, basestring): return from_str(x, prec, rounding)
         if isinstance(x, cls.context.constant): return x.func(prec, rounding)
         if hasattr(x, '_mpf_'): return x._mpf_
+        if isinstance(x, numbers.Rational):
+            return from_rational(int(x.numerator), int(x.denominator), prec, rounding)
         if hasattr(x, '_mpmath_'):
             t = cls.context.convert(x._mpmath_(prec, rounding))
             if hasattr(t, '_mpf_'):
@@ -652,7 +654,7 @@ class PythonMPContext(object):
         prec, rounding = ctx._prec_rounding
         if isinstance(x, rational.mpq):
             p, q = x._mpq_
-            return ctx.make_mpf(from_rational(p, q, prec))
+            return ctx.make_mpf(from_rational(p, q, prec, rounding))
         if strings and isinstance(x, basestring):
             try:
                 _mpf_ = from_str(x, prec, rounding)
